@@ -325,7 +325,8 @@ var c01AliasProgs = []string{
 func c01ValueCases() []c01Run {
 	var out []c01Run
 	for _, sh := range shapeTable() {
-		mk := &Func{Name: "mk", Body: &Block{Stmts: append(append([]Stmt{}, sh.build...), &Return{X: V("v")})}}
+		// every name the builder uses is a parameter, hence local: two calls give two separate structures
+		mk := &Func{Name: "mk", Params: []string{"a", "b", "c", "o", "p", "q", "v", "x"}, Body: &Block{Stmts: append(append([]Stmt{}, sh.build...), &Return{X: V("v")})}}
 		head := Canon(&Program{Items: []any{mk}})
 		for _, op := range c01ValueOps {
 			out = append(out, c01Run{prog: head + " BEGIN { v = mk(); w = mk(); " + op + "; print 'end' }", name: "value-op:" + sh.name + ":" + op})
